@@ -255,6 +255,13 @@ def vocab(ctx, mi, T):
       for x in st.body:
         if isinstance(x, ast.AugAssign) and isinstance(x.op, (ast.Sub, ast.Add)) and U.const_value(x.value) is not None:
           rsp = (U.const_value(st.test.comparators[0]), -U.const_value(x.value) if isinstance(x.op, ast.Sub) else U.const_value(x.value))
+        elif isinstance(x, ast.Assign) and len(x.targets) == 1 and isinstance(x.targets[0], ast.Name):
+          try:      # v = v - 1
+            d_ = (nf.rat(x.value) - nf.rat(U.E(x.targets[0].id))).const_value()
+          except nf.NFError:
+            d_ = None
+          if d_ is not None and d_ != 0 and d_.denominator == 1:
+            rsp = (U.const_value(st.test.comparators[0]), int(d_))
   ctx.ob('SEVENTH/reader', rd, rd.node, rsp is not None, 'the reader lowers an added degree %s by %s' % (rsp[0], -rsp[1]) if rsp else 'the reader has no special case for an added seventh',
          construct='reader: add on degree 7 is relative to the dominant seventh')
   ok = (rsp is None and special is None) or (rsp is not None and special is not None and special[0] == rsp[0] and special[1] == -rsp[1])
